@@ -82,7 +82,7 @@ class FuncContract:
                  loops=None, at_yield=(), modifies=(), generator=False,
                  ghosts=None, cls=None, assumed=False, note="",
                  on_abandon=(), locals_=None, reads_async=False,
-                 verify=True, pure=False, at_call=None, sig=None, stream_out=False, yields=None, summary=None, defs=(), decreases=None, property=False, at_diverge=(), fs_root=None, fs_effects=None, foreign_base=False, exit_lemmas=()):
+                 verify=True, pure=False, at_call=None, sig=None, stream_out=False, yields=None, summary=None, defs=(), decreases=None, property=False, at_diverge=(), fs_root=None, fs_effects=None, foreign_base=False, exit_lemmas=(), call_reveal=None):
         self.module = module
         self.qualname = qualname
         self.props = list(props)
@@ -130,6 +130,9 @@ class FuncContract:
         # proof steps at the normal exit: each is proved from what precedes
         # it and may then be used by the following ones and by `ensures`
         self.exit_lemmas = _clauses(exit_lemmas, props)
+        # hidden facts the precondition obligations of a call may use:
+        # {callee method name: [NAME, ...]}
+        self.call_reveal = dict(call_reveal or {})
         self.at_diverge = _clauses(at_diverge, props)
         self.at_call = {k: _clauses(v, props) for k, v in (at_call or {}).items()}
 
